@@ -476,6 +476,37 @@ def guarded_primitives(prog, an, rep, pid):
 
 
 
+def _own_list_membership(f, loop, comp, key, lst):
+    """The comprehension maps `key` to `key in <the loop's own list>`: the
+    container may go through locals and set()/list()/tuple() copies, as
+    long as each of those locals is bound inside the loop (per author) and
+    nowhere else."""
+    from ..rules import substitute_locals, strip_wrappers, inside
+    if isinstance(comp, ast.DictComp):
+        k, v = comp.key, comp.value
+    elif isinstance(comp.elt, ast.Tuple) and len(comp.elt.elts) == 2:
+        k, v = comp.elt.elts
+    else:
+        return False
+    if not (src(k) == key and isinstance(v, ast.Compare) and
+            len(v.ops) == 1 and isinstance(v.ops[0], ast.In) and
+            src(v.left) == key):
+        return False
+    e = v.comparators[0]
+    for _ in range(6):
+        e = strip_wrappers(e, names=('set', 'list', 'tuple', 'frozenset',
+                                     'sorted'))
+        if isinstance(e, ast.Name) and e.id != lst:
+            binds = stores_to(f, e.id)
+            if len(binds) != 1 or binds[0][1] is None or \
+                    not inside(loop, binds[0][0]):
+                return False
+            e = binds[0][1]
+        else:
+            break
+    return isinstance(e, ast.Name) and e.id == lst
+
+
 def per_author_options(prog, an, rep, pid):
     """PrAuthorsOptions.deserialize grants each author exactly the bypasses
     listed for that author."""
@@ -510,8 +541,8 @@ def per_author_options(prog, an, rep, pid):
                         cmp_, ast.DictComp) else '(%s, %s)' % (
                             src(cmp_.key), src(cmp_.value))
                     if it == 'self.BYPASS_LIST' and \
-                            body == '(%s, %s in %s)' % (tgt, tgt, lst) and \
-                            not cmp_.generators[0].ifs:
+                            not cmp_.generators[0].ifs and \
+                            _own_list_membership(f, lp, cmp_, tgt, lst):
                         ok = True
     rep.check(ok, R, f.qname + ': res[author] = {bypass: bypass in that '
               'author\'s own list}', f.where(), 'per-author bypasses are '
@@ -606,23 +637,83 @@ def in_sync_pairs(prog, an, rep, pid):
             and isinstance(loop.iter, ast.Call) and \
             isinstance(loop.iter.func, ast.Name) and \
             loop.iter.func.id == 'zip' and len(loop.iter.args) == 2:
-        prevs, cur = (text(a) for a in loop.iter.args)
-        good = ('[%s] + %s' % (source, wbr),
-                '[%s] + %s[:-1]' % (source, wbr),
-                '[%s] + list(%s)' % (source, wbr),
-                '[%s, *%s]' % (source, wbr), '(%s, *%s)' % (source, wbr),
-                'itertools.chain([%s], %s)' % (source, wbr),
-                'chain([%s], %s)' % (source, wbr))
-        rep.check(cur == wbr and source in prevs, R, f.qname + ': every '
-                  'integration branch is paired with its predecessor, the '
-                  'first with the source branch', f.where(loop),
-                  'pairs are zip(%s, %s): %s' % (
-                      prevs, cur, 'the source branch is never compared'
-                      if source not in prevs else
-                      'not every integration branch is tested'))
-        if cur == wbr and source in prevs and prevs not in good:
-            raise AnalysisError('%s: pairing zip(%s, %s) is not a form this '
-                                'check knows' % (pid, prevs, cur))
+        # sequences as (leading single items, then all of wbranches?,
+        # items dropped in front, items dropped at the end)
+        def seq(e, depth=0):
+            e = substitute_locals(f, e) if depth == 0 else e
+            if isinstance(e, ast.Name) and e.id == wbr:
+                return [(), True, 0, 0]
+            if isinstance(e, ast.Call) and isinstance(e.func, ast.Name) and \
+                    e.func.id in ('list', 'tuple') and len(e.args) == 1:
+                return seq(e.args[0], depth + 1)
+            if isinstance(e, ast.Call) and src(e.func).endswith('chain') \
+                    and len(e.args) == 2:
+                a, b = seq(e.args[0], depth + 1), seq(e.args[1], depth + 1)
+                if a and b and not a[1] and a[2:] == [0, 0] and \
+                        b[2:] == [0, 0]:
+                    return [a[0] + b[0], b[1], 0, 0] if not b[0] or \
+                        not a[1] else None
+                return None
+            if isinstance(e, (ast.List, ast.Tuple)):
+                head, has = [], False
+                for i, x in enumerate(e.elts):
+                    if isinstance(x, ast.Starred) and i == len(e.elts) - 1 \
+                            and src(x.value) == wbr:
+                        has = True
+                    elif isinstance(x, ast.Starred) or has:
+                        return None
+                    else:
+                        head.append(src(x))
+                return [tuple(head), has, 0, 0]
+            if isinstance(e, ast.BinOp) and isinstance(e.op, ast.Add):
+                a, b = seq(e.left, depth + 1), seq(e.right, depth + 1)
+                if a and b and not a[1] and a[2:] == [0, 0] and \
+                        b[2] == 0 and not b[0]:
+                    return [a[0], b[1], 0, b[3]]
+                return None
+            if isinstance(e, ast.Subscript) and \
+                    isinstance(e.slice, ast.Slice) and e.slice.step is None:
+                a = seq(e.value, depth + 1)
+                lo, hi = e.slice.lower, e.slice.upper
+                if a is None:
+                    return None
+                if lo is not None:
+                    if not (isinstance(lo, ast.Constant) and
+                            isinstance(lo.value, int) and lo.value >= 0):
+                        return None
+                    a[2] += lo.value
+                if hi is not None:
+                    v = hi.operand.value if isinstance(hi, ast.UnaryOp) and \
+                        isinstance(hi.op, ast.USub) and \
+                        isinstance(hi.operand, ast.Constant) else None
+                    if not isinstance(v, int) or v <= 0:
+                        return None
+                    a[3] += v
+                return a
+            return None
+
+        def settle(q):
+            """(remaining single items, items of wbranches dropped in
+            front, dropped at the end) -- or None."""
+            if q is None or not q[1]:
+                return None
+            head, _, front, back = q
+            take = min(front, len(head))
+            return (tuple(head[take:]), front - take, back)
+        prevs, cur = (settle(seq(a)) for a in loop.iter.args)
+        shown = 'zip(%s)' % ', '.join(text(a) for a in loop.iter.args)
+        if prevs is None or cur is None:
+            raise AnalysisError('%s: pairing %s is not a form this check '
+                                'knows' % (pid, shown))
+        # required: previous = [source] + wbranches (the surplus last item
+        # is cut by zip or by [:-1]), current = wbranches
+        rep.check(prevs[:2] == ((source,), 0) and cur == ((), 0, 0), R,
+                  f.qname + ': every integration branch is paired with its '
+                  'predecessor, the first with the source branch',
+                  f.where(loop), 'pairs are %s: %s' % (
+                      shown, 'the source branch is never compared'
+                      if source not in prevs[0] else
+                      'the branches are not paired with their predecessor'))
     else:
         raise AnalysisError('%s: the loop of check_in_sync is not a form '
                             'this check knows' % pid)
